@@ -60,3 +60,19 @@ pub fn disarm() -> usize {
 pub fn peak() -> usize {
     MAX_REQ.with(|m| m.get())
 }
+
+/// RAII pause of the monitor (kernel-internal work on a simulated process's thread must
+/// not be attributed to that process).
+pub struct Paused(bool);
+
+pub fn pause() -> Paused {
+    let was = ARMED.with(|a| a.replace(false));
+    Paused(was)
+}
+
+impl Drop for Paused {
+    fn drop(&mut self) {
+        let was = self.0;
+        let _ = ARMED.try_with(|a| a.set(was));
+    }
+}
